@@ -31,7 +31,7 @@ from __future__ import annotations
 
 import ast
 
-from ..astutil import attr_chain, callee_name, calls, is_name, names_in, text, unwrap_await
+from ..astutil import call_recv, attr_chain, callee_name, calls, is_name, names_in, text, unwrap_await
 from ..callgraph import CallGraph, sccs
 from .. import symb
 from ..core import Result
@@ -140,7 +140,7 @@ def _guarded_accumulator(cg, f, summ) -> bool:
     acc = guard.test.operand.id
     # acc is appended only inside the loop
     for n in ast.walk(f.node):
-        if isinstance(n, ast.Call) and callee_name(n) in ("append", "extend") and is_name(n.func.value, acc):
+        if isinstance(n, ast.Call) and callee_name(n) in ("append", "extend") and is_name(call_recv(n), acc):
             if not any(n is x for x in ast.walk(loop)):
                 return False
 
@@ -149,7 +149,7 @@ def _guarded_accumulator(cg, f, summ) -> bool:
         for c in calls(st):
             if consuming_call(cg, f, c, summ):
                 out.add("consumed")
-            if callee_name(c) in ("append", "extend") and isinstance(c.func, ast.Attribute) and is_name(c.func.value, acc):
+            if callee_name(c) in ("append", "extend") and isinstance(c.func, ast.Attribute) and is_name(call_recv(c), acc):
                 out.add("appended")
         return out
 
@@ -275,7 +275,7 @@ class EofRun:
             return U
         if isinstance(t, ast.Call):
             nm = callee_name(t)
-            if nm == "is_tag" and isinstance(t.func, ast.Attribute) and self.is_tok(t.func.value):
+            if nm == "is_tag" and isinstance(t.func, ast.Attribute) and self.is_tok(call_recv(t)):
                 return F  # the EOF token is not a tag token
         return U
 
@@ -680,7 +680,7 @@ def run(repo: Repo) -> Result:
             nm = callee_name(c)
             if nm not in ("render", "render_async", "render_with_context", "render_with_context_async") or not isinstance(c.func, ast.Attribute):
                 continue
-            chain = attr_chain(c.func.value)
+            chain = attr_chain(call_recv(c))
             if chain and chain[0] == "self" and not (len(chain) > 1 and chain[1] == "parent"):
                 continue  # structural descent into this node's own children
             if chain and chain[0] in own_iter:
@@ -764,7 +764,7 @@ def run(repo: Repo) -> Result:
         for call in calls(rto.node):
             if callee_name(call) != "render" or not isinstance(call.func, ast.Attribute):
                 continue
-            ch = attr_chain(call.func.value)
+            ch = attr_chain(call_recv(call))
             if not ch:
                 continue
             fld = ch[1] if ch[0] == "self" and len(ch) >= 2 else own_iter.get(ch[0])
